@@ -427,7 +427,22 @@ fn run(mode_tok: &str, t: &[&str]) -> String {
             let d = dec(t[1], t[2]);
             let s1 = d.to_string();
             let s2 = String::from(d);
-            let dbg = format!("{:?}", d);
+            let mut dbg = format!("{:?}", d);
+            // Debug under other Formatter flags (`{:#?}` is what `dbg!` and pretty-printed containers use): the text inside
+            // `Dec!(..)` must stay the same; a variant whose inside differs is reported in place of the plain one
+            fn inside(s: &str) -> Option<&str> {
+                let i = s.find("Dec!(")?;
+                let j = s[i + 5..].find(')')?;
+                Some(&s[i + 5..i + 5 + j])
+            }
+            let variants = [format!("{:#?}", d), format!("{:+?}", d), format!("{:14?}", d), format!("{:.1?}", d),
+                            format!("{:<08.3?}", d), format!("{:#?}", Some(d))];
+            for v in variants.iter() {
+                if inside(v) != inside(&dbg) {
+                    dbg = v.clone();
+                    break;
+                }
+            }
             let back = match Decimal::from_str(&s2) {
                 Ok(r) => format!("ok,{},{}", r.coefficient(), r.n_frac_digits()),
                 Err(e) => format!("err,{:?}", e),
